@@ -268,8 +268,8 @@ func genHist(profile string, n int, r *Rng, emit func(Case)) {
 			rep = randDigits(r, r.Range(1, 9))
 			g.length = -1
 		}
-		if profile == "count" {
-			kind = "G"
+		if profile == "count" || (profile == "type" && r.Intn(4) == 0) {
+			kind = "G" // generator-backed: opaque in v3 whatever the length of its stream
 		}
 		if (profile == "type" || profile == "read") && r.Intn(4) == 0 {
 			// real constructors: rationals (terminating and not), square and cube roots
